@@ -265,7 +265,7 @@ func c01GenLine(r *Rng, mut string) string {
 
 func c01Gen(g *Gen) {
 	r := g.Rng
-	n := g.N(900, 60000)
+	n := g.N(900, 20000)
 	for i := 0; i < n; i++ {
 		g.Case(c01GenLine(r, "-"))
 	}
